@@ -66,6 +66,11 @@ pub struct RefLc3 {
     /// C33 known-finding bookkeeping: KBDR reads attempted while the keyboard lock was held / DDR writes while the display lock was held
     pub stale_kbdr_reads: u64,
     pub dropped_ddr_writes: u64,
+    /// the same events when the program had NOT seen the device ready since its previous data access (it did not wait for readiness)
+    pub unwaited_stale_kbdr_reads: u64,
+    pub unwaited_dropped_ddr_writes: u64,
+    kbsr_ready_seen: bool,
+    dsr_ready_seen: bool,
 }
 
 pub fn custom_value(addr: u16) -> u16 { 0xC0DE ^ addr }
@@ -79,7 +84,7 @@ impl RefLc3 {
             custom_ports: BTreeSet::new(), custom_log: vec![],
             iregs: BTreeMap::from([(0xFFFC, IReg::Psr), (0xFFFE, IReg::Mcr)]),
             real_traps: false, ignore_priv: false, instr_count: 0, depth: 0, cc_defined: true, log: vec![],
-            unspecified: BTreeSet::new(), instr_addr: 0, frames: vec![], saw_user_rti: false, stale_kbdr_reads: 0, dropped_ddr_writes: 0,
+            unspecified: BTreeSet::new(), instr_addr: 0, frames: vec![], saw_user_rti: false, stale_kbdr_reads: 0, dropped_ddr_writes: 0, unwaited_stale_kbdr_reads: 0, unwaited_dropped_ddr_writes: 0, kbsr_ready_seen: false, dsr_ready_seen: false,
         }
     }
     pub fn mem(&self, a: u16) -> u16 { self.over.get(&a).copied().unwrap_or(self.base[a as usize]) }
@@ -112,10 +117,13 @@ impl RefLc3 {
                 self.custom_log.push((false, a, 0)); Some(custom_value(a))
             } else if a == KBSR && self.kb_attached {
                 let ready = !self.kb_locked && !self.kb_queue.is_empty();
+                if ready { self.kbsr_ready_seen = true; }
                 Some(((ready as u16) << 15) | ((self.kb_ie as u16) << 14))
             } else if a == KBDR && self.kb_attached {
-                if self.kb_locked { self.stale_kbdr_reads += 1; None } else { self.kb_queue.pop_front().map(u16::from) } // A4: empty queue -> last value
+                { let waited = std::mem::replace(&mut self.kbsr_ready_seen, false);
+                  if self.kb_locked { if waited { self.stale_kbdr_reads += 1; } else { self.unwaited_stale_kbdr_reads += 1; } None } else { self.kb_queue.pop_front().map(u16::from) } } // A4: empty queue -> last value
             } else if a == DSR && self.disp_attached {
+                if !self.disp_locked { self.dsr_ready_seen = true; }
                 Some(((!self.disp_locked) as u16) << 15)
             } else { None };
             if let Some(v) = answer { self.set_mem(a, v); }
@@ -131,7 +139,8 @@ impl RefLc3 {
                 true
             } else if self.custom_ports.contains(&a) { self.custom_log.push((true, a, v)); true }
             else if a == KBSR && self.kb_attached { self.kb_ie = (v >> 14) & 1 != 0; true }
-            else if a == DDR && self.disp_attached { if self.disp_locked { self.dropped_ddr_writes += 1; false } else { self.disp.push(v as u8); true } }
+            else if a == DDR && self.disp_attached { { let waited = std::mem::replace(&mut self.dsr_ready_seen, false);
+                  if self.disp_locked { if waited { self.dropped_ddr_writes += 1; } else { self.unwaited_dropped_ddr_writes += 1; } false } else { self.disp.push(v as u8); true } } }
             else { false }
         } else { true };
         if accepted {
